@@ -134,25 +134,30 @@ Proof.
   - specialize (IH (a * 10 + (d - 48))%N). unfold nfold in IH. lia.
 Qed.
 
+(* on a digit string `decimal` computes min(value, math.MaxInt): once the
+   accumulator would pass MaxInt it stays there *)
 Lemma decimal_loop_digits s : forall a,
   forallb is_dec_digit s = true ->
-  (nfold s a < 9223372036854775808)%N ->
-  decimal_loop s (Z.of_N a) = Some (Z.of_N (nfold s a)).
+  decimal_loop s (Z.min (Z.of_N a) max_int64) = Some (Z.min (Z.of_N (nfold s a)) max_int64).
 Proof.
-  induction s as [|c t IH]; intros a Hd Hlt; cbn [decimal_loop nfold fold_left].
+  induction s as [|c t IH]; intros a Hd; cbn [decimal_loop nfold fold_left].
   - reflexivity.
   - cbn [forallb] in Hd. apply andb_true_iff in Hd as [Hc Ht].
     unfold is_dec_digit in Hc.
-    cbn [nfold fold_left] in Hlt.
-    pose proof (nfold_mono t (a * 10 + (c - 48))%N) as Hm. unfold nfold in Hm.
     assert (Hdig : wrapu8 (Z.of_N c - 48) = Z.of_N c - 48) by (unfold wrapu8; lia).
     rewrite Hdig.
     replace (Z.of_N c - 48 >? 9) with false by lia.
-    assert (Hw : wrap64 (Z.of_N a * 10 + (Z.of_N c - 48)) = Z.of_N (a * 10 + (c - 48))%N).
-    { rewrite wrap64_id; [lia|]. unfold in_int64, min_int64, max_int64. lia. }
-    rewrite Hw.
-    replace (Z.of_N (a * 10 + (c - 48)) <? 0) with false by lia.
-    apply IH; assumption.
+    rewrite Z.quot_div_nonneg by (unfold max_int64; lia).
+    specialize (IH (a * 10 + (c - 48))%N Ht). unfold nfold in IH.
+    destruct (Z.min (Z.of_N a) max_int64 >? (max_int64 - (Z.of_N c - 48)) / 10) eqn:Sat.
+    + (* saturate *)
+      replace max_int64 with (Z.min (Z.of_N (a * 10 + (c - 48))) max_int64) at 1
+        by (unfold max_int64 in *; lia).
+      exact IH.
+    + assert (Hw : wrap64 (Z.min (Z.of_N a) max_int64 * 10 + (Z.of_N c - 48)) =
+                   Z.min (Z.of_N (a * 10 + (c - 48))%N) max_int64).
+      { rewrite wrap64_id; unfold in_int64, min_int64, max_int64 in *; lia. }
+      rewrite Hw. exact IH.
 Qed.
 
 Lemma decimal_loop_nondigit s : forall x,
@@ -165,7 +170,6 @@ Proof.
     destruct (is_dec_digit c) eqn:Dc.
     + cbn [andb] in Hd.
       destruct (wrapu8 (Z.of_N c - 48) >? 9); [reflexivity|].
-      destruct (wrap64 (x * 10 + wrapu8 (Z.of_N c - 48)) <? 0); [reflexivity|].
       apply IH; assumption.
     + unfold is_dec_digit in Dc.
       assert (H : wrapu8 (Z.of_N c - 48) >? 9 = true) by (unfold wrapu8; lia).
@@ -239,6 +243,19 @@ Section Select.
     - replace (Z.of_N n >=? Z.of_nat (length args)) with true by lia. reflexivity.
   Qed.
 
+  (* a saturated field number is an out-of-range index: len(args) fits in an int *)
+  Lemma arg_at_saturated (args : list V) (n : N) st :
+    Z.of_nat (length args) <= max_int64 ->
+    arg_at V args (Z.min (Z.of_N n) max_int64) st =
+    match positional V args n with Some v => SelOk v st | None => SelErr EIndexRange end.
+  Proof.
+    intro Hlen. destruct (Z.leb_spec (Z.of_N n) max_int64) as [L|G].
+    - rewrite Z.min_l by assumption. apply arg_at_positional.
+    - rewrite Z.min_r by lia. unfold arg_at, positional.
+      replace (max_int64 >=? Z.of_nat (length args)) with true by lia.
+      replace (n <? N.of_nat (length args))%N with false by lia. reflexivity.
+  Qed.
+
   (* the two flags and the counter against the specification's numbering *)
   Definition Rst (st : fstate) (m : numbering) : Prop :=
     match m with
@@ -249,14 +266,14 @@ Section Select.
 
   Lemma select_arg_spec name (args : list V) kwargs st m :
     Rst st m -> is_bytes name = true ->
-    seg_number_fits (Field (selector_of name) [] []) = true ->
+    Z.of_nat (length args) <= max_int64 ->
     match select_arg V name args kwargs st, resolve V (selector_of name) args kwargs m with
     | SelOk v st', inl (v', m') => v = v' /\ Rst st' m'
     | SelErr e, inr e' => e = e'
     | _, _ => False
     end.
   Proof.
-    intros HR Hb Hfit.
+    intros HR Hb Hargs.
     destruct name as [|c0 name0].
     - (* {} *)
       cbn [select_arg selector_of resolve].
@@ -285,15 +302,14 @@ Section Select.
       rewrite Hs in *. clear Hs.
       destruct (forallb is_dec_digit name) eqn:Dg.
       + (* a number *)
-        cbn [seg_number_fits] in Hfit.
-        unfold decimal. change 0 with (Z.of_N 0).
-        rewrite decimal_loop_digits; [|assumption|rewrite <- number_of_nfold; lia].
+        unfold decimal. change 0 with (Z.min (Z.of_N 0) max_int64).
+        rewrite decimal_loop_digits by assumption.
         rewrite <- number_of_nfold. cbn [resolve].
         destruct m; cbn [Rst] in HR; subst st; cbn [st_manual st_index st_auto].
-        * rewrite arg_at_positional. destruct (positional V args (number_of name)); [|reflexivity].
+        * rewrite arg_at_saturated by assumption. destruct (positional V args (number_of name)); [|reflexivity].
           split; reflexivity.
         * reflexivity.
-        * rewrite arg_at_positional. destruct (positional V args (number_of name)); [|reflexivity].
+        * rewrite arg_at_saturated by assumption. destruct (positional V args (number_of name)); [|reflexivity].
           split; reflexivity.
       + (* a keyword *)
         unfold decimal. rewrite decimal_loop_nondigit by assumption.
